@@ -295,9 +295,13 @@ def check_C05(run):
 
 def check_C20(run):
     q = run.quick
-    fams = [("interval", dict(over=dict(MaxT=5 if q else 6, MaxKids=4, MaxRecs=2, MaxRevokes=0 if q else 1, EmitEvery=12 if q else 50),
+    fams = [("interval", dict(over=dict(MaxT=5 if q else 6, MaxKids=4, MaxRecs=2, MaxRevokes=0 if q else 1, EmitEvery=5 if q else 30),
                               ik=("session", "shared", "none"), sk=(True, False) )),
             ("two-parts", dict(over=dict(MaxT=4, MaxKids=4 if q else 5, MaxRecs=2, MaxRevokes=0, EmitEvery=15 if q else 60), parts=("a", "b"), ik=("shared", "session"), sk=(True,)))]
+    # encrypt-only histories at every clock position, densely sampled: a key that expires while its cache entry is still fresh is
+    # rotated inline, and the encrypts that follow within the interval make no call
+    fams.append(("inline-rotation", dict(over=dict(MaxT=5 if q else 6, Ticks="{1}", MaxKids=4, MaxRecs=1, MaxRevokes=0, OpKinds='{"Enc"}', EmitEvery=2 if q else 3),
+                                         ik=("session", "shared"), sk=(True,))))
     import eng_conc
     eng_conc.stale_sk_part(run)      # concurrent sessions on a stale system key: one KMS unwrap (RefMonitor.tla)
     return generic(run, fams)
